@@ -12,7 +12,13 @@
    the tx log while id / PrevAlh chain and the record's own check hold AND its values are found in
    the value log with the recorded digest (fix ccd70f3); hash tree: ResetSize to the COMMITTED id when
    larger (fix 2077e08), "up to date" when EQUAL to the precommitted id, re-appended from the tx log
-   otherwise).
+   otherwise).  Rewinds below the flushed size are truncations (fix 09014a8, Crash/Storage.v);
+   ahtree.ResetSize = sync() + rewind of the tree's commit log, not fsynced (fix 6a85281, c_ahtreset =
+   RCut); the size checks of ahtree.OpenWith are the comparison "digest log at least as long as the
+   commit log says" (fix 34e747f only makes it wrap-around free).  NOT modelled: I/O errors (every
+   storage call succeeds or the process crashes: the deferred commit-log rewind of an incomplete
+   commit loop, fix 8728288, is never taken) and DiscardPrecommittedTxsSince (which since 8728288
+   also rewinds the tx log).
 
    Abstractions (named in the evidence): a tx record is  id(8) ‖ prevAlh(32) ‖ len(4) ‖ body ‖ alh(32)
    with alh = H(id ‖ prevAlh ‖ H body) and body = value reference (vlog, off, len, H values) ‖ opaque
